@@ -491,12 +491,12 @@ def kani_playback(scratch, crate, cfg, ob, allmods):
     if rf:
         env["RUSTFLAGS"] = (env.get("RUSTFLAGS", "") + " " + rf).strip()
     cmd = ["cargo", "kani"] + base + ["-Z", "function-contracts", "--no-assert-contracts", "--no-assertion-reach-checks", "-Z", "stubbing", "-Z", "unstable-options", "-Z", "concrete-playback",
-           "--concrete-playback=inplace", "--harness-timeout", str(int(ob["timeout"]) * 2), "--harness", ob["name"],
+           "--concrete-playback=inplace", "--harness-timeout", str(min(int(ob["timeout"]) * 2, 900)), "--harness", ob["name"],
            "--target-dir", str(tdir)]
     if ob.get("solver"):
         pass
     try:
-        p = subprocess.run(cmd, cwd=scratch.src, env=env, text=True, capture_output=True, timeout=int(ob["timeout"]) * 2 + 300, preexec_fn=_limits)
+        p = subprocess.run(cmd, cwd=scratch.src, env=env, text=True, capture_output=True, timeout=min(int(ob["timeout"]) * 2, 900) + 300, preexec_fn=_limits)
     except subprocess.TimeoutExpired:
         return None
     out = p.stdout + p.stderr
